@@ -95,6 +95,8 @@ type FuncVC struct {
 	assumptions map[string]bool
 	epochN   int
 	tableFns map[ssa.Value]*tableRef
+	effCache map[string][]string
+	tableFnsByName map[string]*TableSpec
 	oblBlk   int // when >= 0: block whose ancestors are relevant for obligations being emitted (loop init edges)
 	anc      map[int]map[int]bool
 }
@@ -583,6 +585,15 @@ func (fv *FuncVC) scanLoopEffects(li *loopInfo) {
 					li.havoc["calls"] = true
 					continue
 				}
+				if cc != nil {
+					if hs, ok := fv.contractHeaps(cc, com); ok {
+						for _, h := range hs {
+							li.havoc[h] = true
+						}
+						li.havoc["alloc"] = true
+						continue
+					}
+				}
 				li.havocAll = true
 			case *ssa.Next:
 				li.havoc["iter"] = true
@@ -683,4 +694,83 @@ func (fv *FuncVC) ancestors(blk int) map[int]bool {
 	}
 	fv.anc[blk] = a
 	return a
+}
+
+// contractHeaps: the heaps a call abstracted by contract cc may change — those of its
+// modifies targets and, if it promises fresh results, those its postcondition reads.
+// Found by a dry-run translation with dummy arguments of the right types.
+func (fv *FuncVC) contractHeaps(cc *FuncContract, com *ssa.CallCommon) (heaps []string, ok bool) {
+	defer func() {
+		if r := recover(); r != nil {
+			if _, isSpec := r.(specError); isSpec {
+				heaps, ok = nil, false
+				return
+			}
+			panic(r)
+		}
+	}()
+	key := cc.Key() + "/" + cc.Kind + "/" + cc.Name
+	if fv.effCache == nil {
+		fv.effCache = map[string][]string{}
+	}
+	if h, done := fv.effCache[key]; done {
+		return h, true
+	}
+	e := fv.e
+	sig := com.Signature()
+	var argT []types.Type
+	if com.IsInvoke() {
+		argT = append(argT, com.Value.Type())
+	}
+	for _, a := range com.Args {
+		argT = append(argT, a.Type())
+	}
+	if len(cc.Params) > len(argT) {
+		return nil, false
+	}
+	touched := map[string]bool{}
+	st := &State{kind: sEntry, h: map[string]Term{}, fv: fv}
+	env := &Env{e: e, vars: map[string]TV{}, st: st, old: st, pkg: cc.Pkg, alloc0: "0", touched: touched}
+	env.lazy = func(name string) Term { return e.constant("dry_"+name, e.heapSortOf(name)) }
+	for i, a := range cc.Params {
+		env.vars[a] = TV{e.constant(fmt.Sprintf("dry_arg%d_%s", i, e.mangle(argT[i])), e.sortOf(argT[i])), argT[i]}
+	}
+	if tb, isTable := fv.tableFnsByName[cc.Name]; isTable {
+		env.vars[tb.KeyVar] = TV{e.strLit(""), tyString}
+	}
+	set := map[string]bool{}
+	for _, m := range cc.Modifies {
+		for _, me := range fv.modTargets(env, m) {
+			set[me.heap] = true
+		}
+	}
+	allocates := false
+	for _, en := range cc.Ensures {
+		if exprMentionsCall(en.E, "fresh") {
+			allocates = true
+		}
+	}
+	if allocates {
+		for i, a := range cc.Results {
+			if i < sig.Results().Len() {
+				rt := sig.Results().At(i).Type()
+				env.vars[a] = TV{e.constant(fmt.Sprintf("dry_res%d_%s", i, e.mangle(rt)), e.sortOf(rt)), rt}
+			}
+		}
+		for k := range touched {
+			delete(touched, k)
+		}
+		for _, en := range cc.Ensures {
+			env.trBool(en.E)
+		}
+		for k := range touched {
+			set[k] = true
+		}
+	}
+	for k := range set {
+		heaps = append(heaps, k)
+	}
+	sort.Strings(heaps)
+	fv.effCache[key] = heaps
+	return heaps, true
 }
